@@ -24,6 +24,9 @@ def plan(req, idx):
         spec["framing"] = "close"
     elif t.startswith(b"/eof"):
         spec["framing"] = "close"
+    elif t.startswith(b"/upgrade"):
+        # 101 Switching Protocols: the connection is handed over to the caller and never reused
+        spec = {"status": 101, "reason": b"Switching Protocols", "headers": [(b"X-Tok", req.token or b"?"), (b"Connection", b"upgrade"), (b"Upgrade", b"verif")], "framing": "none", "body": b"", "upgrade": True}
     elif t.startswith(b"/interim"):
         # several interim responses before the final one (100, 103 with headers, 102)
         spec["interim"] = [(100, []), (103, [(b"Link", b"</style.css>; rel=preload")]), (102, [])]
@@ -33,7 +36,7 @@ def plan(req, idx):
 def no_keepalive(url):
     """Does the response plan for this URL forbid reuse of the connection?"""
     path = "/" + url.split("://", 1)[1].partition("/")[2]
-    return path.startswith(("/close", "/http10", "/eof"))
+    return path.startswith(("/close", "/http10", "/eof", "/upgrade"))
 
 
 def early(req):
@@ -101,6 +104,8 @@ add(Scenario("h1-max2-ABC-keep0", dict(max_connections=2, max_keepalive_connecti
 add(Scenario("h1-max2-AAAA", dict(max_connections=2), [c("r1", A + "/1"), c("r2", A + "/2"), c("r3", A + "/3"), c("r4", A + "/4")]))
 add(Scenario("h1-max3-ABCAB", dict(max_connections=3, max_keepalive_connections=2), [c("r1", A + "/"), c("r2", B + "/"), c("r3", C + "/"), c("r4", A + "/4"), c("r5", B + "/5")]))
 add(Scenario("h1-max1-close", dict(max_connections=1), [c("r1", A + "/close1"), c("r2", A + "/close2"), c("r3", A + "/3")]))
+UPG = [(b"Connection", b"upgrade"), (b"Upgrade", b"verif")]
+add(Scenario("h1-max1-upgrade", dict(max_connections=1), [c("r1", A + "/upgrade1", headers=UPG), c("r2", A + "/2"), c("r3", A + "/upgrade3", headers=UPG)]))
 add(Scenario("h1-max1-abandon", dict(max_connections=1), [c("r1", A + "/big1", consume=("chunks", 1)), c("r2", A + "/big2", consume="none"), c("r3", A + "/3")]))
 add(Scenario("h1-max1-interim", dict(max_connections=1), [c("r1", A + "/interim1"), c("r2", A + "/2"), c("r3", A + "/interim3", method="POST", headers=[(b"Content-Length", b"4")], content=[b"abcd"])]))
 add(Scenario("h1-max1-http10", dict(max_connections=1), [c("r1", A + "/http10"), c("r2", A + "/2")]))
